@@ -13,9 +13,7 @@ package main
 // states in which an environment event (timer) may fire keep full branching.
 
 import (
-	"fmt"
 	"os"
-	"strings"
 )
 
 type dporEvent struct {
@@ -180,16 +178,30 @@ type dporNode struct {
 	done []int // goroutine ids already scheduled (explored or queued) at this node
 }
 
-func nodeKey(tr []Decision) string {
-	var sb strings.Builder
-	for _, d := range tr {
-		if d.K == 'v' {
-			fmt.Fprintf(&sb, "v%d=%s;", d.C, d.V)
-		} else {
-			fmt.Fprintf(&sb, "%c%d;", d.K, d.C)
-		}
+// nodeKey identifies a node by a 128-bit hash of its decision prefix (two independent FNV-1a
+// streams): the prefixes themselves would cost O(runs x depth) memory.
+type nodeID [2]uint64
+
+func nodeKey(tr []Decision) nodeID {
+	h1, h2 := uint64(14695981039346656037), uint64(1099511628211*31+7)
+	mix := func(b uint64) {
+		h1 ^= b
+		h1 *= 1099511628211
+		h2 ^= b + 0x9e3779b97f4a7c15
+		h2 *= 0x100000001b3 + 0x20
+		h2 = h2<<13 | h2>>51
 	}
-	return sb.String()
+	for _, d := range tr {
+		mix(uint64(d.K))
+		mix(uint64(int64(d.C)))
+		if d.K == 'v' {
+			for i := 0; i < len(d.V); i++ {
+				mix(uint64(d.V[i]))
+			}
+		}
+		mix(0xff)
+	}
+	return nodeID{h1, h2}
 }
 
 // dporRegisterFirst notes the goroutine a run scheduled by default at a fresh node.
@@ -216,7 +228,7 @@ func (d *Driver) dporBacktracks(r *Run) [][]Decision {
 		return nil
 	}
 	if d.dporNodes == nil {
-		d.dporNodes = map[string]*dporNode{}
+		d.dporNodes = map[nodeID]*dporNode{}
 	}
 	evs := st.events
 	// every event's default choice is registered at its node
